@@ -88,19 +88,26 @@ type c02Case struct {
 	// Nested: the message's own signature sits inside an Extensions child of the signed
 	// element rather than directly under it (its Reference still names the element's ID)
 	Nested bool `json:"nested_signature,omitempty"`
+	// Wrapped: the base64 text of DigestValue, SignatureValue and X509Certificate starts on a new
+	// line and is broken into 64-character lines, as most IdP implementations write it
+	Wrapped bool `json:"wrapped_base64,omitempty"`
+	// Indented (signatures that are not honoured anyway): as Wrapped, every line also indented
+	// with spaces, so that the values are not plain base64 text; a signature that cannot be
+	// read is a signature that is not honoured, never an absent one
+	Indented bool `json:"indented_base64,omitempty"`
 }
 
 var c02Memo sync.Map
 
 // c02Message renders (memoised) the message for a kind and signer. All message-level time
 // bounds are wide so that only the certificate window matters.
-func c02Message(kind string, si int, deflate bool, nested bool) string {
-	id := fmt.Sprintf("%s/%d/%v/%v", kind, si, deflate, nested)
+func c02Message(kind string, si int, deflate bool, nested bool, wrapped bool, indented bool) string {
+	id := fmt.Sprintf("%s/%d/%v/%v/%v/%v", kind, si, deflate, nested, wrapped, indented)
 	if v, ok := c02Memo.Load(id); ok {
 		return v.(string)
 	}
 	s := c02Signers[si]
-	sign := idp.SignSpec{Key: s.Key, KeyInfo: s.KeyInfo, Tamper: s.Tamper}
+	sign := idp.SignSpec{Key: s.Key, KeyInfo: s.KeyInfo, Tamper: s.Tamper, Wrap64: wrapped || indented, Indent: indented}
 	if nested {
 		sign.Nested = "Extensions"
 	}
@@ -193,7 +200,7 @@ func c02ExecOn(c c02Case, live *saml2.SAMLServiceProvider) (keys []string, detai
 		// acceptance follows the Response's own (K2) signature
 		hon = c02Honoured(c02Signers[1], c.Conf.Store, clock)
 	}
-	msg := c02Message(c.Kind, c.Signer, c.Deflate, c.Nested)
+	msg := c02Message(c.Kind, c.Signer, c.Deflate, c.Nested, c.Wrapped, c.Indented)
 	sp := live
 	if sp == nil {
 		sp = c.Conf.Build()
@@ -292,7 +299,7 @@ func c02Replay(raw json.RawMessage) ([]string, string) {
 }
 
 func c02Run(r *mc.Run) {
-	r.Rule = "full product kind(7) x signer state(12) x store(7) x clock position(11: both ends of two certificate windows, +-1s) x presentation(2) x signature placement(2: directly under the signed element, nested in an Extensions child); a case is non-trivial when the message passed decoding and reached signature processing (every case here does: all are well-formed signed messages); distinct = distinct (kind,signer,store,clock,presentation)"
+	r.Rule = "full product kind(7) x signer state(12) x store(7) x clock position(11: both ends of two certificate windows, +-1s) x presentation(2) x signature placement and layout(3: directly under the signed element, nested in an Extensions child, directly under it with the base64 values starting on a new line and wrapped at 64 columns; for signatures that are not honoured also with every such line indented by spaces, which makes the values unreadable as plain base64); a case is non-trivial when the message passed decoding and reached signature processing (every case here does: all are well-formed signed messages); distinct = distinct (kind,signer,store,clock,presentation)"
 	r.Assume("goxmldsig canonicalisers (used by the harness signer) are correct", "RSA/ECDSA unforgeable")
 	var cases []c02Case
 	n, complete := mc.Enumerate(-1, r.Expired, func(c *mc.Chooser) {
@@ -301,9 +308,14 @@ func c02Run(r *mc.Run) {
 		st := c.Choose("store", len(c02Stores))
 		ck := c.Choose("clock", len(c02Clocks))
 		d := c.Bool("deflate")
-		nested := c.Bool("nested-signature")
+		place := c.Choose("signature-placement-and-layout", 4)
+		nested, wrapped, indented := place == 1, place == 2, place == 3
+		if indented && c02Honoured(c02Signers[s], c02Stores[st], c02Clocks[ck].Off) {
+			// whether a reader tolerates such a layout of a good signature is not this property's business
+			return
+		}
 		cases = append(cases, c02Case{Kind: c02Kinds[k], Signer: s, SName: c02Signers[s].Name,
-			Conf: world.SPConf{Store: c02Stores[st], ClockNs: int64(c02Clocks[ck].Off)}, Clock: c02Clocks[ck].Name, Deflate: d, Nested: nested})
+			Conf: world.SPConf{Store: c02Stores[st], ClockNs: int64(c02Clocks[ck].Off)}, Clock: c02Clocks[ck].Name, Deflate: d, Nested: nested, Wrapped: wrapped, Indented: indented})
 	})
 	if !complete {
 		r.Cap("enumeration stopped by deadline")
@@ -314,7 +326,7 @@ func c02Run(r *mc.Run) {
 		c := cases[i]
 		keys, detail := c02Exec(c)
 		r.Eval(1)
-		r.Nontrivial(fmt.Sprintf("%s/%d/%v/%s/%v/%v", c.Kind, c.Signer, c.Conf.Store, c.Clock, c.Deflate, c.Nested))
+		r.Nontrivial(fmt.Sprintf("%s/%d/%v/%s/%v/%v/%v", c.Kind, c.Signer, c.Conf.Store, c.Clock, c.Deflate, c.Nested, c.Wrapped, c.Indented))
 		hon := "not-honoured"
 		if strings.Contains(detail, "honoured(model)=true") {
 			hon = "honoured"
@@ -341,7 +353,7 @@ func c02Histories(r *mc.Run, cases []c02Case) {
 	groups := map[string][]c02Case{}
 	var order []string
 	for _, c := range cases {
-		k := fmt.Sprintf("%s/%d/%v/%v", c.Kind, c.Signer, c.Deflate, c.Nested)
+		k := fmt.Sprintf("%s/%d/%v/%v/%v/%v", c.Kind, c.Signer, c.Deflate, c.Nested, c.Wrapped, c.Indented)
 		if _, ok := groups[k]; !ok {
 			order = append(order, k)
 		}
